@@ -3,7 +3,7 @@ import json
 import os
 from ..vlib import core, tlc
 
-FLOAT = {"delays": [0.0, 0.1, 0.2, 0.3, 0.7, 1.1, 3.7], "until_deltas": [0.0, 0.1, 0.25, 0.3, 1.3],
+FLOAT = {"delays": [0.0, 0.1, 0.2, 0.3, 0.7, 1.1, 3.7, -1e-16, -2e-13, -0.5], "until_deltas": [0.0, 0.1, 0.25, 0.3, 1.3],
          "until_abs": [0.3, 0.47, 1.7, 2.33, 4.41, 5.55, 7.77, 9.81, 13.51, 0.1, 0.6, 1.9, 3.3, 6.1, 8.2]}
 BASE = {"sleep": 0, "timeout": 0, "event": 0, "succeed": 0, "fail": 0, "spawn": 0, "interrupt": 0, "cond": 0,
         "condnoprobe": 0, "yield": 0, "baddelay": 0, "condforeign": 0, "raise": 0, "return": 0.3}
